@@ -200,7 +200,10 @@ Definition set_ref_type (ref t : Z) (m : member) :=
 Fixpoint members_loop (st : list bytes) (roles memids types : list Z) (memid : Z) (index : nat)
   (ms : list member) : result (list member) :=
   match roles with
-  | [] => full ms index
+  | [] =>
+      (* if index != len(members) || memids.HasNext() { return errMemberColumns } (fix bf5fa46: a memids
+         column longer than roles and types used to lose its trailing members silently) *)
+      match memids with [] => full ms index | _ :: _ => Err E_COLUMNS end
   | r :: rr =>
       _ <- upd ms index (fun m => m) ;;;        (* if index >= len(members) *)
       role <- idx st (int32 r) ;;;
